@@ -86,21 +86,12 @@ def reply_ordinals(tr):
     return calls
 
 
-def tag_corrupt_sessions(rnd, n):
-    """Logix read / write (single, fragmented, multi-service, read-modify-write) and SLC calls one of whose replies is truncated
-    (well framed, payload stops early), cut, bit-flipped or given an encapsulation error.  The corrupted call is the last
-    data call of its session: what the target did is then unknown to the caller, and only C13 is judged on it."""
+def corrupt_one_call(rnd, base, kinds=("trunc", "trunc", "trunc", "trunc", "cut", "flip", "status32", "encap"), family="tag-corrupt"):
+    """For each base session: a dry run tells which replies belong to its read / write calls; one of them is corrupted and
+    the corrupted call becomes the last data call of the session (what the target did is then unknown to the caller)."""
     from .. import session
-    from . import logix_rw
-    from .logix_rw import R
     out = []
-    for i in range(n):
-        big = [{"name": "BIGC", "code": 0xC4, "dims": [rnd.choice([200, 1500])]}] if i % 3 == 0 else None
-        sc = logix_rw.session(rnd, i, prefix="tc", n_calls=2, max_reqs=6, invalid_rate=0.05, caps=False, big=big)
-        if big:
-            nel = big[0]["dims"][0]
-            extra = [S.read_call([R([("BIGC", [])], count=nel)]), S.write_call([R([("BIGC", [])], count=nel, value=list(range(nel)))])]
-            sc["calls"] = sc["calls"][:-1] + [rnd.choice(extra)] + [{"api": "close"}]
+    for sc in base:
         calls = reply_ordinals(session.run_scenario(sc))
         idx = [j for j, c in enumerate(calls) if c["api"] in ("read", "write") and c["ords"]]
         if not idx:
@@ -108,9 +99,9 @@ def tag_corrupt_sessions(rnd, n):
         j = rnd.choice(idx)
         k = rnd.choice(calls[j]["ords"])
         ln = calls[j]["lens"][k]
-        how = rnd.choice(["trunc", "trunc", "trunc", "trunc", "cut", "flip", "status32", "encap"])
+        how = rnd.choice(kinds)
         if how == "trunc":
-            c = ["trunc", rnd.choice([24, 32, 40, 44, 45, 46, 47, 48, 49, 50, 51, 52, 53, 54, 55, 56, 58, 60, ln - 2, ln - 1, rnd.randint(24, ln - 1)])]
+            c = ["trunc", rnd.choice([24, 32, 40, 44, 45, 46, 47, 48, 49, 50, 51, 52, 53, 54, 55, 56, 58, 60, ln - 2, ln - 1, ln - 1, rnd.randint(24, ln - 1)])]
         elif how == "cut":
             c = ["cut", rnd.choice([0, 4, 23, 24, 44, 50, ln - 1])]
         elif how == "flip":
@@ -122,10 +113,31 @@ def tag_corrupt_sessions(rnd, n):
         sc2 = json.loads(json.dumps(sc))
         sc2["id"] = sc["id"] + "c"
         sc2["calls"] = sc["calls"][:j + 1] + [{"api": "close"}]
-        sc2["family"] = "tag-corrupt-" + how
+        sc2["family"] = family + "-" + how
         sc2["target"]["corrupt"] = {str(k): c}
         out.append(sc2)
     return out
+
+
+def tag_corrupt_sessions(rnd, n):
+    """Logix read / write (single, fragmented, multi-service, read-modify-write) and SLC calls one of whose replies is truncated
+    (well framed, payload stops early), cut, bit-flipped or given an encapsulation error.  Only C13 is judged on that call."""
+    from . import logix_rw, c18
+    from .logix_rw import R
+    base = []
+    for i in range(n):
+        big = [{"name": "BIGC", "code": 0xC4, "dims": [rnd.choice([200, 1500])]}] if i % 3 == 0 else None
+        sc = logix_rw.session(rnd, i, prefix="tc", n_calls=2, max_reqs=6, invalid_rate=0.05, caps=False, big=big)
+        if big:
+            nel = big[0]["dims"][0]
+            extra = [S.read_call([R([("BIGC", [])], count=nel)]), S.write_call([R([("BIGC", [])], count=nel, value=list(range(nel)))])]
+            sc["calls"] = sc["calls"][:-1] + [rnd.choice(extra)] + [{"api": "close"}]
+        base.append(sc)
+    out = corrupt_one_call(rnd, base)
+    slc = c18.gen(rnd, max(6, n // 5))
+    for s in slc:
+        s["id"] = "tcs" + s["id"]
+    return out + corrupt_one_call(rnd, slc, family="slc-corrupt")
 
 
 def run(ctx):
